@@ -144,7 +144,7 @@ def native_storage():
     n = 0
     d = tempfile.mkdtemp()
     try:
-        def store(rows, stem):
+        def store(rows, stem, ods_opts=None):
             paths = {}
             p = os.path.join(d, stem + ".csv")
             import csv
@@ -152,7 +152,7 @@ def native_storage():
                 csv.writer(f).writerows(rows)
             paths["csv"] = p
             p = os.path.join(d, stem + ".ods")
-            write_ods(p, encode_document([("s", rows)], column_runs=True))
+            write_ods(p, encode_document([("s", rows)], **(ods_opts or dict(column_runs=True))))
             paths["ods"] = p
             p = os.path.join(d, stem + ".xlsx")
             wb = xlsxwriter.Workbook(p)
@@ -190,6 +190,20 @@ def native_storage():
             failures.append(dict(key="cid-storage", what="the same CID stored as csv/ods/xlsx loads as %r" % (sums,), args={}))
         else:
             samples.append(dict(query="native/cid-storage", summary=str(sums["csv"])[:300]))
+        # cells with carriage returns, consecutive blanks and tabs: the same values whatever the container
+        special = [["k", "text"], ["1", "a\r\nb"], ["2", "Dr.   Who"], ["3", "tab\there"], ["4", "x\ry"]]
+        spaths = store(special, "special", dict(ws_elements=True, span_at=2))
+        values = {}
+        for kind, fmt in (("csv", "delimited"), ("ods", "ods"), ("xlsx", "excel")):
+            n += 1
+            cid = interface.create_cid_from_string("d,format,%s\nd,header,1\nf,k\nf,text,,,...12\n" % fmt)
+            try:
+                values[kind] = ["error" if isinstance(r, errors.DataError) else r for r in validio.rows(cid, spaths[kind], on_error="yield")]
+            except Exception as e:  # noqa
+                values[kind] = "%s: %s" % (type(e).__name__, e)
+        # (an ODS paragraph cannot hold a bare line break: '\r\n' and '\r' are compared between csv and xlsx only)
+        if not (values["csv"] == values["xlsx"] and isinstance(values["ods"], list) and values["ods"][1:3] == values["csv"][1:3]):
+            failures.append(dict(key="data-storage-special-characters", what="cells with CR / blanks / tabs stored as csv/ods/xlsx are read as %r" % (values,), args={}))
         # a CID whose number-looking cells are stored as real number cells in the workbook (what a spreadsheet does)
         num_rows = [["d", "format", "delimited"], ["d", "header", 0], ["f", "zero", 0, "", 1, "Integer", 0],
                     ["f", "code", 7, "X", "", "Integer", "0...99"], ["f", "none", "", "X", 0, "Text", ""]]
